@@ -52,6 +52,7 @@ type bounds struct {
 	MaxOps      int      // per section
 	MaxTotal    int      // operations in the whole program
 	MustHave    []string // every configuration contains at least one of these kinds (nil: no constraint)
+	MustHaveToo []string // ... and at least one of these (nil: no constraint)
 	DoubleFault bool     // also enumerate a second failing attempt (await false at every position) before the successful retry
 }
 
@@ -83,7 +84,15 @@ func configs(b bounds) [][]string {
 					}
 				}
 			}
-			if ok {
+			ok2 := len(b.MustHaveToo) == 0
+			for _, m := range b.MustHaveToo {
+				for _, x := range c {
+					if x == m {
+						ok2 = true
+					}
+				}
+			}
+			if ok && ok2 {
 				out = append(out, c)
 			}
 		}
@@ -694,9 +703,10 @@ func protoOf(kind, name string) *instance {
 }
 
 type replay struct {
-	Family  string   `json:"family"`
-	Choices []int    `json:"choices"`
-	Case    caseSpec `json:"case"`
+	Late    *lateReplay `json:"late,omitempty"`
+	Family  string      `json:"family"`
+	Choices []int       `json:"choices"`
+	Case    caseSpec    `json:"case"`
 }
 
 func families(thorough bool) []bounds {
@@ -709,7 +719,11 @@ func families(thorough bool) []bounds {
 	// a single-node CRDT (grow-only counter) with a scripted remote peer that asks for the resource's state over its
 	// RPC listener in the middle of every attempt
 	// Persistent over a function-valued variable: indexed and whole writes, the database content is part of the state
-	pfn := bounds{Name: "persistent-indexed", Kinds: []string{"persistent-fn", "persistent-shared-fn", "local"}, MinKinds: 2, MaxKinds: 2, MaxSec: 2, MaxOps: 2, MaxTotal: 3, MustHave: persistentFnKinds}
+	// (quick: each next to a local, <=2 operations; thorough: also both together, <=3 operations)
+	pfn := bounds{Name: "persistent-indexed", Kinds: []string{"persistent-fn", "persistent-shared-fn", "local"}, MinKinds: 2, MaxKinds: 2, MaxSec: 2, MaxOps: 2, MaxTotal: 2, MustHave: persistentFnKinds, MustHaveToo: []string{"local"}}
+	if thorough {
+		pfn.MaxTotal, pfn.MustHaveToo = 3, nil
+	}
 	crdt := bounds{Name: "crdt-remote", Kinds: []string{"crdt", "reflocal", "local"}, MinKinds: 2, MaxKinds: 2, MaxSec: 2, MaxOps: 2, MaxTotal: 3, MustHave: []string{"crdt"}}
 	if !thorough {
 		return []bounds{tcp, crdt, pfn, q, d}
@@ -721,6 +735,15 @@ func families(thorough bool) []bounds {
 }
 
 func TestCheck(t *testing.T) {
+	if s := os.Getenv("VERIF_C01_NESTED"); s != "" {
+		// child process of the late-completion scenarios (late.go)
+		var c nestedCase
+		if err := json.Unmarshal([]byte(s), &c); err != nil {
+			t.Fatal(err)
+		}
+		nestedChild(c)
+		return
+	}
 	hres.Main(t, func(env hres.Env) *hres.Result {
 		debug.SetGCPercent(600) // executions are allocation-heavy and short-lived
 		res := &hres.Result{Property: "C01", Level: "fault_enumeration"}
@@ -783,6 +806,13 @@ func TestCheck(t *testing.T) {
 			if err := json.Unmarshal(env.Replay, &r); err != nil {
 				t.Fatal(err)
 			}
+			if r.Family == "late" && r.Late != nil {
+				res.Coverage = map[string]any{"evaluations": 1, "distinct_nontrivial": 0, "rule": "replay", "samples": []any{r.Late}}
+				if fl := replayLate(r.Late); fl != nil {
+					res.Violations = append(res.Violations, hres.Viol{Key: fl.key, What: fl.what, Replay: r})
+				}
+				return res
+			}
 			var st runStats
 			_, fl, disc := runCase(r.Case, setup(0).(*wenv), &st)
 			res.Coverage = map[string]any{"evaluations": 1, "distinct_nontrivial": 0, "rule": "replay", "samples": []any{r.Case.String()}, "discarded": disc}
@@ -798,6 +828,9 @@ func TestCheck(t *testing.T) {
 		var samples []any
 		perFamily := map[string]any{}
 		seenKeys := map[string]bool{}
+		if only := os.Getenv("VERIF_C01_FAMILY"); only == "" || only == "late" {
+			runLate(env, res, cov)
+		}
 		fams := families(env.Thorough())
 		for fi, b := range fams {
 			if only := os.Getenv("VERIF_C01_FAMILY"); only != "" && only != b.Name {
